@@ -700,6 +700,16 @@ class IndividualAddressResponse(APCI):
         return "<IndividualAddressResponse />"
 
 
+# 10 bit APCI codes inside the A_ADC_Response block (0b0111xxxxxx) belong to other
+# services - an A_ADC_Response for these channel numbers can not be expressed.
+_ADC_RESPONSE_UNAVAILABLE_CHANNELS = frozenset(
+    service.value & 0x3F
+    for service in APCIService
+    if service.value & 0x03C0 == APCIService.ADC_RESPONSE.value
+    and service is not APCIService.ADC_RESPONSE
+)
+
+
 @dataclass(slots=True)
 class ADCResponse(APCI):
     """
@@ -735,6 +745,12 @@ class ADCResponse(APCI):
 
     def to_knx(self) -> bytearray:
         """Serialize to KNX/IP raw data."""
+        if not 0 <= self.channel <= 0x3F:
+            raise ConversionError("Channel out of range.")
+        if self.channel in _ADC_RESPONSE_UNAVAILABLE_CHANNELS:
+            raise ConversionError(
+                "Channel collides with the APCI code of another service."
+            )
         payload = struct.pack("!BBH", self.channel, self.count, self.value)
 
         return encode_cmd_and_payload(
@@ -777,6 +793,8 @@ class ADCRead(APCIRequest[ADCResponse]):
 
     def to_knx(self) -> bytearray:
         """Serialize to KNX/IP raw data."""
+        if not 0 <= self.channel <= 0x3F:
+            raise ConversionError("Channel out of range.")
         payload = struct.pack("!BB", self.channel, self.count)
 
         return encode_cmd_and_payload(
